@@ -52,7 +52,6 @@ structure DS where
   callClock : Aid → Nat := fun _ => 0
   callTau : Aid → Option Nat := fun _ => none
   asserted : Bool := false
-  relockUB : Bool := false                  -- a lock by the owner of a non-recursive mutex happened (POSIX: undefined)
   -- trace monitors (computed from the observed lines only)
   held : Nat → Aid → Nat := fun _ _ => 0
   semCap : Nat → Nat := fun _ => 0
@@ -162,7 +161,7 @@ def othersHold (s : DS) (m : Nat) (a : Aid) : Bool :=
 def monRet (s : DS) (clock : Nat) (a : Aid) (op : String) (args : List Nat) (res : List String) : DS × Option String :=
   let acquired (m : Nat) : DS × Option String :=
     let s1 := { s with held := upd2 s.held m a (s.held m a + 1) }
-    if othersHold s m a ∧ ¬ s.relockUB then
+    if othersHold s m a then
       (s1, some s!"mutual exclusion: actor {a} obtained mutex {m} while another actor holds it")
     else (s1, none)
   match op, args, res with
@@ -258,10 +257,6 @@ def judge (s : DS) (q _a : List String) : DS × Verdict :=
           match eventsOf s.mc a op args with
           | none => (s, .bad)
           | some evs =>
-            let s := match op, args with
-              | "lock", [m] => if ¬ (s.w.mutexes m).recursive ∧ (s.w.mutexes m).owner = some a then { s with relockUB := true } else s
-              | "alock", [m] => if ¬ (s.w.mutexes m).recursive ∧ (s.w.mutexes m).owner = some a then { s with relockUB := true } else s
-              | _, _ => s
             let s := { s with stat := upd s.stat a (.blocked op) }
             if s.mc then okv { s with pend := upd s.pend a evs, pres := upd s.pres a [] }
             else
